@@ -81,12 +81,13 @@ def facts_path(config="default", repo=None, cache=None, verbose=False):
         if os.path.exists(out) and os.path.getsize(out) > 1000:
             return out, {"reused": True, "tree_hash": th, "extract_s": 0.0}
         # drop older fact files of this config (bounded disk use)
-        for f in os.listdir(cache):
-            if f.startswith("facts-%s-" % config) and f.endswith(".json"):
-                try:
-                    os.remove(os.path.join(cache, f))
-                except OSError:
-                    pass
+        olds = sorted((f for f in os.listdir(cache) if f.startswith("facts-%s-" % config) and f.endswith(".json")),
+                      key=lambda f: os.path.getmtime(os.path.join(cache, f)))
+        for f in olds[:-8]:
+            try:
+                os.remove(os.path.join(cache, f))
+            except OSError:
+                pass
         target = os.path.join(cache, "target-%s" % config)
         fp = os.path.join(target, "debug", ".fingerprint")
         if os.path.isdir(fp):
